@@ -47,6 +47,10 @@ COMBINATORS = {
     "std::result::Result::<T, E>::or_else":     ("res", {"Ok": ("wrap", "Ok", "id"), "Err": ("call", "f")}),
     "std::result::Result::<T, E>::ok":          ("res", {"Ok": ("wrap", "Some", "id"), "Err": ("none",)}),
     "std::result::Result::<T, E>::unwrap_or_else": ("res", {"Ok": ("payload",), "Err": ("call", "f")}),
+    # (default, f): the closure is the *third* argument
+    "std::option::Option::<T>::map_or":         ("opt", {"Some": ("call", "f"), "None": ("argv",)}, 2),
+    "std::result::Result::<T, E>::map_or":      ("res", {"Ok": ("call", "f"), "Err": ("argv",)}, 2),
+    "std::option::Option::<T>::is_some_and":    ("opt", {"Some": ("call", "f"), "None": ("false",)}),
 }
 VARIANT_OF = {"Some": ("std::option::Option", 1), "None": ("std::option::Option", 0),
               "Ok": ("std::result::Result", 0), "Err": ("std::result::Result", 1)}
@@ -431,7 +435,8 @@ class _Builder:
 
     def combinator(self, bi, spec, line, view):
         """recv.comb(f)  ==>  match recv { V1(x) => .., V2(y) => .. } with the closure / function call explicit."""
-        kind, arms = spec
+        kind, arms = spec[0], spec[1]
+        f_index = spec[2] if len(spec) > 2 else 1
         t = self.blocks[bi]["term"]
         cont, dest, dty = t.get("t"), t["dest"], t.get("dty")
         if cont is None or not t["args"]:
@@ -441,7 +446,8 @@ class _Builder:
         if rp is None:
             return False
         needs_f = any(a[0] in ("call", "call0") or (a[0] in ("wrap", "wrap0") and a[-1] == "f") for a in arms.values())
-        f_op = t["args"][1] if len(t["args"]) > 1 else None
+        f_op = t["args"][f_index] if len(t["args"]) > f_index else None
+        d_op = t["args"][1] if len(t["args"]) > 1 else None       # the default / plain second argument
         if needs_f and f_op is None:
             return False
         rty = self.place_ty(rp) or ("std::option::Option<?>" if kind == "opt" else "std::result::Result<?, ?>")
@@ -507,10 +513,13 @@ class _Builder:
                 self.blocks[blk]["stmts"].append(A(dest, U(payload), dty))
                 self.blocks[blk]["term"] = G(cont)
             elif arm[0] == "argv":
-                self.blocks[blk]["stmts"].append(A(dest, U(f_op), dty))
+                self.blocks[blk]["stmts"].append(A(dest, U(d_op), dty))
+                self.blocks[blk]["term"] = G(cont)
+            elif arm[0] == "false":
+                self.blocks[blk]["stmts"].append(A(dest, U({"k": {"ty": "bool", "val": {"kind": "bool", "v": False}, "dbg": "false"}}), dty))
                 self.blocks[blk]["term"] = G(cont)
             elif arm[0] == "arg":
-                self.blocks[blk]["stmts"].append(A(dest, agg(arm[1], [f_op]), dty))
+                self.blocks[blk]["stmts"].append(A(dest, agg(arm[1], [d_op]), dty))
                 self.blocks[blk]["term"] = G(cont)
             elif arm[0] == "wrap" and arm[2] == "id":
                 self.blocks[blk]["stmts"].append(A(dest, agg(arm[1], [payload]), dty))
@@ -532,6 +541,264 @@ class _Builder:
                                    "line": line, "inl": "comb"}
         self.inlined.append(("adaptor:comb", bi))
         return True
+
+    # -- `for x in [a, b, c]` -> three copies of the body -------------------------------------------------
+    def unroll_one(self, view):
+        """Unroll one `for` loop whose source is a literal array (by value, `.iter()`, optionally `.enumerate()`)
+        of at most 40 elements.  Iteration-local temporaries get fresh locals per copy so that single-assignment
+        term building keeps working."""
+        from mir import callee_names as cn
+        loops = view.loops()
+        for head, lblocks in sorted(loops.items()):
+            # the next() call: in the head block or its first successor
+            nb = None
+            for bb in [head] + [x for x in view.succs(head) if x in lblocks]:
+                t = self.blocks[bb]["term"]
+                if t["k"] == "call":
+                    nm = (cn(t)[1] or cn(t)[0] or "")
+                    if nm.endswith("::next") and "Iterator" in nm:
+                        nb = bb
+                        break
+            if nb is None or self.blocks[nb]["cleanup"]:
+                continue
+            nt = self.blocks[nb]["term"]
+            sw = nt.get("t")
+            if sw is None or self.blocks[sw]["term"]["k"] != "switch" or nt["dest"]["p"]:
+                continue
+            swt = self.blocks[sw]["term"]
+            some = [b_ for v, b_ in swt["targets"] if v == 1]
+            none = [b_ for v, b_ in swt["targets"] if v == 0]
+            if len(some) != 1 or len(none) != 1 or none[0] in lblocks:
+                continue
+            nxt_local = nt["dest"]["l"]
+            # source of the iterator
+            it = view.term_of_operand(nt["args"][0])
+            while it[0] in ("ref", "deref"):
+                it = it[1]
+            src = it
+            enum_ = False
+            by_ref = False
+            for _ in range(6):
+                if src[0] == "call" and src[1].endswith("::into_iter") and "IntoIterator" in src[1] and src[2]:
+                    src = src[2][0]
+                elif src[0] == "call" and src[1].endswith("Iterator::enumerate") and src[2] and not enum_:
+                    enum_ = True
+                    src = src[2][0]
+                elif src[0] == "call" and (src[1].endswith("<impl [T]>::iter") or src[1].endswith("<impl [T]>::iter_mut")) and src[2]:
+                    by_ref = True
+                    src = src[2][0]
+                elif src[0] in ("ref", "deref"):
+                    if src[0] == "ref":
+                        by_ref = by_ref or False
+                    src = src[1]
+                elif src[0] == "cast":
+                    src = src[1]
+                else:
+                    break
+            if not (src[0] == "agg" and src[1] == "array" and 0 < len(src[4]) <= 40):
+                continue
+            # the statement that built the array: take its operands
+            arr_ops = None
+            arr_local = None
+            for blk in self.blocks:
+                for st in blk["stmts"]:
+                    if st["k"] == "assign" and st["rv"]["k"] == "agg" and st["rv"].get("ak") == "array" and len(st["rv"]["fields"]) == len(src[4]):
+                        if tuple(view.term_of_operand(f) for f in st["rv"]["fields"]) == tuple(src[4]):
+                            arr_ops = st["rv"]["fields"]
+                            arr_local = st["lhs"]["l"] if not st["lhs"]["p"] else None
+            if arr_ops is None:
+                continue
+            if by_ref:
+                # `.iter()`: the elements are references into the array, which must then be a local
+                if arr_local is None:
+                    continue
+                ref_ops = []
+                for i_ in range(len(arr_ops)):
+                    l_r = self.new_local("&elem")
+                    ref_ops.append((l_r, {"k": "ref", "mut": False, "place": {"l": arr_local, "p": [{"cidx": i_}]}}))
+            if head != nb and (self.blocks[head]["stmts"] or self.blocks[head]["term"]["k"] != "goto"):
+                continue          # a separate head block must only jump to the next() block
+            # one iteration = everything dominated by the Some arm: the loop body proper and the blocks that leave
+            # the loop from inside it (`?` error exits, `break`, `return`), which also read iteration-local values
+            body_blocks = sorted(b_ for b_ in range(len(self.blocks)) if view.dominates(some[0], b_) and b_ not in (head, nb, sw))
+            if not body_blocks or any(b_ in (head, nb, sw) for b_ in body_blocks):
+                continue
+            entry_edges = [(p_, ) for p_ in range(len(self.blocks)) if p_ not in lblocks and head in view.succs(p_, unwind=False)]
+            if not entry_edges:
+                continue
+            # iteration-local locals
+            assigned = {}
+            used_out = set()
+            def places_of_stmt(st):
+                out = []
+                if "lhs" in st:
+                    out.append(st["lhs"])
+                rv = st.get("rv") or {}
+                for k in ("a", "b"):
+                    op = rv.get(k)
+                    if isinstance(op, dict):
+                        pl = op.get("c") or op.get("m")
+                        if pl:
+                            out.append(pl)
+                if "place" in rv:
+                    out.append(rv["place"])
+                for f in rv.get("fields", []):
+                    pl = f.get("c") or f.get("m")
+                    if pl:
+                        out.append(pl)
+                return out
+            def places_of_term(t_):
+                out = []
+                for k in ("d", "cond", "fn"):
+                    op = t_.get(k)
+                    if isinstance(op, dict):
+                        pl = op.get("c") or op.get("m")
+                        if pl:
+                            out.append(pl)
+                for a in t_.get("args", []):
+                    pl = a.get("c") or a.get("m")
+                    if pl:
+                        out.append(pl)
+                for k in ("dest", "place"):
+                    if k in t_ and isinstance(t_[k], dict):
+                        out.append(t_[k])
+                m_ = t_.get("msg") or {}
+                for k in ("len", "index", "a", "b"):
+                    op = m_.get(k)
+                    if isinstance(op, dict):
+                        pl = op.get("c") or op.get("m")
+                        if pl:
+                            out.append(pl)
+                return out
+            def locals_of(pl):
+                ls = {pl["l"]}
+                for e in pl["p"]:
+                    if isinstance(e, dict) and "idx" in e:
+                        ls.add(e["idx"])
+                return ls
+            for bi_, blk in enumerate(self.blocks):
+                inside = bi_ in body_blocks or bi_ in (nb, sw)
+                for st in blk["stmts"]:
+                    for pl in places_of_stmt(st):
+                        for l in locals_of(pl):
+                            if not inside:
+                                used_out.add(l)
+                    if inside and st["k"] == "assign" and not st["lhs"]["p"]:
+                        assigned.setdefault(st["lhs"]["l"], []).append(bi_)
+                for pl in places_of_term(blk["term"]):
+                    for l in locals_of(pl):
+                        if not inside:
+                            used_out.add(l)
+                if inside and blk["term"]["k"] == "call" and not blk["term"]["dest"]["p"]:
+                    assigned.setdefault(blk["term"]["dest"]["l"], []).append(bi_)
+            argc = self.raw.get("argc", 0)
+            # where each local is read inside the region
+            used_in = {}
+            for bi_ in list(body_blocks) + [nb, sw]:
+                blk = self.blocks[bi_]
+                for st in blk["stmts"]:
+                    pls = places_of_stmt(st)
+                    if st["k"] == "assign" and not st["lhs"]["p"]:
+                        pls = pls[1:]          # a whole-local assignment is a def, not a use
+                    for pl in pls:
+                        for l in locals_of(pl):
+                            used_in.setdefault(l, set()).add(bi_)
+                tt_ = blk["term"]
+                for pl in places_of_term(tt_):
+                    if tt_["k"] == "call" and pl is tt_.get("dest") and not pl["p"]:
+                        continue
+                    for l in locals_of(pl):
+                        used_in.setdefault(l, set()).add(bi_)
+
+            def iteration_local(l, bs):
+                if l in used_out or l <= argc:
+                    return False
+                if len(bs) == 1:
+                    return True
+                # several definitions (a value chosen on two arms): fine unless some read can happen before all of them
+                for u in used_in.get(l, ()):
+                    if all(view.dominates(u, d) and u != d for d in bs):
+                        return False
+                return True
+            local_iter = set(l for l, bs in assigned.items() if iteration_local(l, bs))
+            local_iter.add(nxt_local)
+            n = len(arr_ops)
+            exit_bb = none[0]
+            first_entries = []
+            copies = []
+            start_blocks = len(self.blocks)
+            for i in range(n):
+                lmap = {}
+                for l in sorted(local_iter):
+                    d = dict(self.locals[l])
+                    self.locals.append(d)
+                    lmap[l] = len(self.locals) - 1
+                base = start_blocks + i * (len(body_blocks) + 1)
+                bmap = {b_: base + 1 + k for k, b_ in enumerate(body_blocks)}
+                copies.append((lmap, bmap, base))
+            for i in range(n):
+                lmap, bmap, base = copies[i]
+                lm = lambda l, lmap=lmap: lmap.get(l, l)
+                nxt_entry = copies[i + 1][2] if i + 1 < n else exit_bb
+                def bm(b_, bmap=bmap, nxt_entry=nxt_entry):
+                    if b_ in bmap:
+                        return bmap[b_]
+                    if b_ in (head, nb):
+                        return nxt_entry
+                    return b_
+                line = nt.get("line")
+                elem = arr_ops[i]
+                pre0 = []
+                if by_ref:
+                    l_r, rv_r = ref_ops[i]
+                    pre0 = [{"k": "assign", "lhs": {"l": l_r, "p": []}, "rv": rv_r, "lty": None, "line": line, "exp": False, "inl": "unroll"}]
+                    elem = {"c": {"l": l_r, "p": []}}
+                if enum_:
+                    l_t = self.new_local("(usize, ?)")
+                    pre = [{"k": "assign", "lhs": {"l": l_t, "p": []}, "rv": {"k": "agg", "ak": "tuple", "fields": [
+                        {"k": {"ty": "usize", "val": {"kind": "int", "v": i}, "dbg": str(i)}}, elem]}, "lty": None, "line": line, "exp": False, "inl": "unroll"}]
+                    pre = pre0 + pre
+                    elem_op = {"m": {"l": l_t, "p": []}}
+                else:
+                    pre = list(pre0)
+                    elem_op = elem
+                some_agg = {"k": "agg", "ak": "adt", "def": "std::option::Option", "variant": "Some", "vi": 1, "field_names": ["0"], "fields": [elem_op]}
+                pre.append({"k": "assign", "lhs": {"l": lm(nxt_local), "p": []}, "rv": some_agg, "lty": self.locals[nxt_local]["ty"], "line": line, "exp": False, "inl": "unroll"})
+                e_bb = self.new_block(pre, {"k": "goto", "t": bm(some[0]), "line": line, "inl": "unroll"})
+                assert e_bb == base, (e_bb, base)
+                for b_ in body_blocks:
+                    ob = self.blocks[b_]
+                    nbk = {"cleanup": ob["cleanup"], "stmts": [_map_stmt(st, lm) for st in ob["stmts"]], "term": _map_term(ob["term"], lm, bm)}
+                    self.blocks.append(nbk)
+                    self.origin[len(self.blocks) - 1] = self.origin.get(b_, "unroll")
+            first = copies[0][2]
+            # redirect loop entries
+            for (p_,) in entry_edges:
+                self.blocks[p_]["term"] = _map_term(self.blocks[p_]["term"], lambda l: l, lambda b_: first if b_ == head else b_)
+            # the old loop is now unreachable: blank it so that whole-body scans do not see its calls twice
+            seen, st_ = set(), [0]
+            while st_:
+                x = st_.pop()
+                if x in seen:
+                    continue
+                seen.add(x)
+                tt = self.blocks[x]["term"]
+                k_ = tt["k"]
+                if k_ == "goto":
+                    st_.append(tt["t"])
+                elif k_ == "switch":
+                    st_.extend([b_ for v, b_ in tt["targets"]] + [tt["otherwise"]])
+                elif k_ in ("call", "drop", "assert"):
+                    if tt.get("t") is not None:
+                        st_.append(tt["t"])
+                    if tt.get("unwind") is not None:
+                        st_.append(tt["unwind"])
+            for x in range(len(self.blocks)):
+                if x not in seen:
+                    self.blocks[x] = {"cleanup": self.blocks[x]["cleanup"], "stmts": [], "term": {"k": "unreachable", "line": None, "inl": "dead"}}
+            self.inlined.append(("adaptor:unroll%d" % n, head))
+            return True
+        return False
 
     def ret_ty(self, closure):
         return closure.raw["locals"][0]["ty"]
@@ -613,6 +880,12 @@ class _Builder:
                         stack_of[nb] = chain + (rid,)
                     changed = True
             if not changed:
+                break
+        for _ in range(12):
+            try:
+                if not self.unroll_one(self.snapshot()):
+                    break
+            except Exception:       # an unexpected shape is simply not unrolled
                 break
         b = self.snapshot()
         b.inlined = list(self.inlined)
